@@ -79,6 +79,11 @@ pub struct FileSpec {
     /// generated table, a dump). `#`-comment languages only.
     #[serde(default)]
     pub pad_kib: usize,
+    /// Markdown files the diff does not mention only: 1 = the whole file is the body of one list
+    /// item (`- first line`, every other line indented by two blanks), so that every HTML comment
+    /// is an `html_block` nested in `list > list_item` instead of a child of the document's section.
+    #[serde(default)]
+    pub md_nest: u8,
 }
 
 /// What the symbolic link of a `was_symlink` file pointed to.
@@ -774,6 +779,28 @@ pub fn render_file(f: &FileSpec, poisoned: bool) -> RenderedFile {
         lines.push(comment(leader, 0, 0, POISON_TAIL));
         lines.push("zz".to_string());
         lines.push("aa".to_string());
+    }
+    if f.md_nest == 1 && leader == "<!--" && !f.bom && matches!(f.diff, FileDiff::None) {
+        // one list item: the indentation in front of an end-tag comment belongs to the content
+        for (i, l) in lines.iter_mut().enumerate() {
+            if i == 0 {
+                l.insert_str(0, "- ");
+            } else if !l.is_empty() {
+                l.insert_str(0, "  ");
+            }
+        }
+        for b in blocks.iter_mut() {
+            if b.end_line == b.start_line {
+                continue;
+            }
+            let mut content = String::from("\n");
+            for l in &lines[b.start_line + b.tag_lines - 1..b.end_line - 1] {
+                content.push_str(l);
+                content.push('\n');
+            }
+            content.push_str("  ");
+            b.content = content;
+        }
     }
     if f.no_final_newline && !poisoned {
         // the last line must be a real one: an empty last line without terminator does not exist
